@@ -1,6 +1,6 @@
 -- The library root imports the executable model (what the driver runs). The proof modules are built per property
--- (`lake build Evenio.Props.Cxx`, see lean/obligations.json and tools/build_all.sh): they were developed independently and
--- some helper lemmas share names, so they are not imported into one environment here.
+-- (`lake build Evenio.Props.Cxx`, see lean/obligations.json); `Evenio.All` imports every property module into one
+-- environment (helper-name clashes between independently written files were resolved, see lean/DEDUPE_CHANGES.md).
 import Evenio.Model.Types
 import Evenio.Generated.AccessTables
 import Evenio.Generated.Gates
